@@ -532,7 +532,8 @@ def run_shard(spec):
         for _ in range(4 if quick else 40):
             st.run_world(rng, HEADER_CLASSES, nblocks=rng.choice([8, 14, 20]), ncand=45 if quick else 60)
         for _ in range(1 if quick else 8):        # every candidate the first block above the checkpoint horizon
-            st.run_world(rng, HEADER_CLASSES, nblocks=rng.choice([6, 10]), ncand=20 if quick else 40, horizon_at_head=True)
+            cstream.Stream.run_world(st, rng, HEADER_CLASSES, nblocks=rng.choice([6, 10]), ncand=20 if quick else 40,
+                                     bad_key_prob=0.0, horizon_at_head=True)
     if spec["shard"] % 4 in (1, 2):
         miner_front_end_lane(st, rng, 2 if quick else 25, period=rng.choice([4, 5, 6]) if lane == "period" else None)
     if lane != "period" and spec["shard"] % 4 == 0:
